@@ -19,7 +19,7 @@ ASSUMPTIONS = [
     "absolute tolerance 16*eps32*log2(n+1)*||x||_2 per element (for convolution/correlation ||a||_2*||b||_2): float32 FFT rounding, calibrated (observed/limit is recorded)",
     "data values come from five classes drawn from VERIF_SEED; the enumerated dimension is the length (and the kernel length)",
 ]
-REQUIRED_OUTCOMES = ["roundtrip/ok", "roundtrip/odd_fft_size", "roundtrip/padded", "parseval/ok", "dft/ok", "mspec/ok", "convolve/ok", "correlate/ok", "long_series/ok", "long_convolve/ok"]
+REQUIRED_OUTCOMES = ["roundtrip/ok", "roundtrip/odd_fft_size", "roundtrip/padded", "parseval/ok", "dft/ok", "mspec/ok", "convolve/ok", "correlate/ok", "long_series/ok", "long_convolve/ok", "roundtrip/object_reuse_ok"]
 
 EPS32 = float(np.finfo(np.float32).eps)
 
@@ -233,6 +233,27 @@ def _series(shard, ctx, res, only):
             except Exception as e:  # noqa: BLE001
                 res.violation({"site": "TimeSeries.rfft/FourierSeries.ifft", "symptom": f"raised {type(e).__name__} with user-supplied numpy transforms"}, case, repr(e))
                 continue
+            # the same object transformed again after its samples were refilled in place, and after the first returned spectrum was edited in place:
+            # every call must describe the samples the series holds at that moment
+            if cname in ("normal", "constant") and n >= 2:
+                res.evaluations += 1
+                try:
+                    ts3 = TimeSeries(x.copy(), _hdr(n))
+                    first = ts3.rfft()
+                    y = (x[::-1] * np.float32(0.5) + np.float32(1.25)).astype(np.float32)
+                    ts3.data[:] = y
+                    np.asarray(first.data)[:] = 0
+                    second = np.asarray(ts3.rfft().data, dtype=np.complex128)
+                    yp = np.zeros(ng)
+                    yp[:n] = y
+                    Dy = (yp[None, :] * np.exp(-2j * np.pi * k * t / ng)).sum(1)
+                    if second.shape != Dy.shape or not (float(np.max(np.abs(second - Dy))) <= 16 * EPS32 * np.log2(n + 1) * max(float(np.linalg.norm(yp)), 1e-30)):
+                        res.violation({"site": "TimeSeries.rfft", "symptom": "second transform of the same object does not describe its current samples"}, case, f"n={n}")
+                        continue
+                    res.outcome("roundtrip/object_reuse_ok")
+                except Exception as e:  # noqa: BLE001
+                    res.violation({"site": "TimeSeries.rfft", "symptom": f"raised {type(e).__name__} on a second transform of the same object"}, case, repr(e))
+                    continue
             res.outcome("roundtrip/ok")
             if ng % 2:
                 res.outcome("roundtrip/odd_fft_size")
